@@ -34,6 +34,8 @@ import (
 	"sync"
 	"time"
 	"unicode/utf8"
+	"verif/engine/explore"
+	"verif/engine/sched"
 
 	"github.com/mattn/anko/ast"
 	"github.com/mattn/anko/parser"
@@ -496,10 +498,11 @@ func smallest(vs []common.Violation) []common.Violation {
 }
 
 type replayRec struct {
-	Space string `json:"space"` // "input" or "pair"
-	A     string `json:"a_hex"`
-	B     string `json:"b_hex,omitempty"`
-	Full  bool   `json:"full,omitempty"`
+	Space   string `json:"space"` // "input" or "pair"
+	A       string `json:"a_hex"`
+	B       string `json:"b_hex,omitempty"`
+	Full    bool   `json:"full,omitempty"`
+	Choices []int  `json:"choices,omitempty"` // space "concurrent": A holds comma-separated hex texts
 }
 
 func run(c *common.Ctx) *common.Result {
@@ -767,6 +770,8 @@ func run(c *common.Ctx) *common.Result {
 			res.Violate(v)
 		}
 	}
+	concurrentPhase(c, res)
+	phase("concurrent")
 	return res
 }
 
@@ -804,6 +809,40 @@ func replay(c *common.Ctx, path string) int {
 	if err != nil {
 		fmt.Println("cannot read replay:", err)
 		return 2
+	}
+	if rec.Space == "concurrent" {
+		var texts []string
+		for _, h := range strings.Split(rec.A, ",") {
+			t, _ := hex.DecodeString(h)
+			texts = append(texts, string(t))
+		}
+		var first string
+		bad := false
+		for round := 0; round < 2; round++ {
+			r := &explore.Run{Prefix: rec.Choices}
+			outs, verdict, s := runConcurrent(texts, r, true)
+			desc := verdict + " | " + strings.Join(outs, " | ")
+			if round == 0 {
+				first = desc
+				for _, st := range s.Trace {
+					fmt.Printf("  T%d %s\n", st.Thread, st.What)
+				}
+				for k, t := range texts {
+					solo := parse(t).signature()
+					fmt.Printf("text %d %q\n  concurrent: %s\n  solo:       %s\n", k, t, trunc(outs[k], 400), trunc(solo, 400))
+					if outs[k] != solo || verdict != sched.OK {
+						bad = true
+					}
+				}
+			} else if desc != first {
+				fmt.Println("NONDETERMINISTIC replay")
+				return 2
+			}
+		}
+		if bad {
+			return 1
+		}
+		return 0
 	}
 	a, _ := hex.DecodeString(rec.A)
 	b, _ := hex.DecodeString(rec.B)
